@@ -55,12 +55,23 @@ done:
 static int pack_files(sqfs_block_processor_t *data, fstree_t *fs,
 		      options_t *opt)
 {
+	char *old_cwd = NULL;
 	tree_node_t *node;
-	int ret;
+	int ret = 0;
 
-	if (opt->packdir != NULL && chdir(opt->packdir) != 0) {
-		perror(opt->packdir);
-		return -1;
+	if (opt->packdir != NULL) {
+		/* the output file name may be relative to where we started */
+		old_cwd = getcwd(NULL, 0);
+		if (old_cwd == NULL) {
+			perror("getting current directory");
+			return -1;
+		}
+
+		if (chdir(opt->packdir) != 0) {
+			perror(opt->packdir);
+			free(old_cwd);
+			return -1;
+		}
 	}
 
 	for (node = fs->files; node != NULL; node = node->next_by_type) {
@@ -71,7 +82,8 @@ static int pack_files(sqfs_block_processor_t *data, fstree_t *fs,
 			node_path = fstree_get_path(node);
 			if (node_path == NULL) {
 				perror("reconstructing file path");
-				return -1;
+				ret = -1;
+				break;
 			}
 
 			ret = canonicalize_name(node_path);
@@ -86,11 +98,21 @@ static int pack_files(sqfs_block_processor_t *data, fstree_t *fs,
 		ret = pack_file(data, path, node, opt);
 		free(node_path);
 
-		if (ret)
-			return -1;
+		if (ret) {
+			ret = -1;
+			break;
+		}
 	}
 
-	return 0;
+	if (old_cwd != NULL) {
+		if (chdir(old_cwd) != 0) {
+			perror(old_cwd);
+			ret = -1;
+		}
+		free(old_cwd);
+	}
+
+	return ret;
 }
 
 int main(int argc, char **argv)
